@@ -7,11 +7,19 @@
 (*   Add, Delete, Get, Interrupt : Lock/RLock .. Unlock/RUnlock            *)
 (*   GetNext R1  : RLock .. RUnlock (four-case table + range search)       *)
 (*   GetNext W   : Lock (W0) or re-acquisition after Wait (W1) .. one loop *)
-(*                 iteration .. Unlock (return) or Wait (park = W2)        *)
+(*                 iteration .. Unlock (return) or entry of Wait           *)
+(*   GetNext Wreg: inside newMessage.Wait(): register as waiter + release  *)
+(*                 the lock (park = W2)                                    *)
 (* DESIGN.md names W0/W1/W2: here  pc = "W" /\ self \notin waiting  is W0  *)
 (* (blocked at Lock) or W1 (woken, re-acquiring), and                      *)
 (* pc = "W" /\ self \in waiting  is W2 (parked in newMessage.Wait()).      *)
-(* Cancel is the caller's context cancel function (no lock).               *)
+(* Between W and Wreg the reader still holds messagesMu (holder = self)    *)
+(* and is not yet a waiter: everything that takes messagesMu is excluded,  *)
+(* but lock-free events are not: Cancel (the caller's context cancel       *)
+(* function never takes a lock) and, sync.Cond permitting Broadcast        *)
+(* without c.L, InterruptGetNext if the code broadcasts without taking     *)
+(* messagesMu (LockedInterrupt = FALSE; the harness reads this from the    *)
+(* code under test at run time).  A Broadcast landing there is lost.       *)
 (*                                                                         *)
 (* Fixed = FALSE models the pinned tree: in the wait loop                  *)
 (*   current, _ = os.getUnlocked(id of current) ; current.NextID           *)
@@ -38,6 +46,7 @@ CONSTANTS
   Adders, Deleters, Readers, Getters, Interrupters,   \* roles, subsets of Threads
   Fixed,          \* TRUE: repaired wait loop, FALSE: pinned tree (Crash reachable)
   Contig,         \* TRUE: Add uses maxAdded+1 only; FALSE: any larger id (gaps)
+  LockedInterrupt,\* TRUE: InterruptGetNext takes messagesMu (pinned tree), FALSE: lock-free Broadcast
   KeepHist        \* 0 no history, 1 operations, 2 operations + projected post state
 
 NoNext == -1      \* math.MaxUint64 in NextID; also "no successor"
@@ -100,6 +109,7 @@ variables
   tail = 0,               \* lastseen.Messages[0].Id.Id (lastseen.NextID = MaxUint64 outside Add)
   cache = << >>,          \* messagesCache: id -> NextID at the time it was decoded
   waiting = {},           \* goroutines parked in newMessage.Wait()
+  holder = 0,             \* reader that entered Wait() and still holds messagesMu, 0 if none
   cancelled = [t \in Threads |-> FALSE],   \* ctx of t's current (or next) GetNext call
   x   = [t \in Threads |-> 0],             \* GetNext argument lastseen.Id while in flight
   cur = [t \in Threads |-> 0],             \* id of local `current` in the wait loop
@@ -112,9 +122,9 @@ variables
   hist = << >>;
 
 define
-  InFlight(t) == pc[t] = "W"
+  InFlight(t) == pc[t] \in {"W", "Wreg"}
   Parked(t)   == pc[t] = "W" /\ t \in waiting
-  Runnable(t) == pc[t] = "W" /\ t \notin waiting
+  Runnable(t) == (pc[t] = "W" /\ t \notin waiting) \/ pc[t] = "Wreg"
   AnyInFlight == \E t \in Threads : InFlight(t)
 
   AddChoices == {i \in (maxAdded + 1)..MaxId : Contig => i = maxAdded + 1}
@@ -125,7 +135,7 @@ define
   CwUpd == [t \in Threads |-> cw[t] \/ (InFlight(t) /\ cancelled[t])]
 
   Pairs(f) == {<<i, f[i]>> : i \in DOMAIN f}
-  Proj(d, tl, c, w) == [db |-> Pairs(d), tail |-> tl, cache |-> Pairs(c), waiting |-> w]
+  Proj(d, tl, c, w, h) == [db |-> Pairs(d), tail |-> tl, cache |-> Pairs(c), waiting |-> w, holder |-> h]
 end define;
 
 macro Log(a, arg, pos)
@@ -133,7 +143,7 @@ begin
   hist := IF KeepHist = 0 THEN hist
           ELSE IF KeepHist = 1 THEN Append(hist, [t |-> self, a |-> a, arg |-> arg])
           ELSE Append(hist, [t |-> self, a |-> a, arg |-> arg, pos |-> pos, ret |-> lastret,
-                             post |-> Proj(db, tail, cache, waiting)]);
+                             post |-> Proj(db, tail, cache, waiting, holder)]);
 end macro;
 
 process Thread \in Threads
@@ -142,7 +152,7 @@ Start:
   while TRUE do
     either
       \* ---------------------------------------------------------------- Add
-      await self \in Adders;
+      await self \in Adders /\ holder = 0;
       with id \in AddChoices do
         \* batch.Put(lastseen with NextID = id); batch.Put(new tail); db.Write
         db := (id :> NoNext) @@ (tail :> id) @@ db;
@@ -158,7 +168,7 @@ Start:
       end with;
     or
       \* ------------------------------------------------------------- Delete
-      await self \in Deleters;
+      await self \in Deleters /\ holder = 0;
       with id \in DelChoices do
         if id = tail then
           \* i.Last(); i.Prev(): lastseen := previous batch, NextID := MaxUint64, Put
@@ -177,7 +187,7 @@ Start:
       end with;
     or
       \* ---------------------------------------------------------------- Get
-      await self \in Getters;
+      await self \in Getters /\ holder = 0;
       with id \in 0..MaxId do
         lastret := [t |-> self, k |-> IF Has(db, cache, id) THEN "got" ELSE "miss", id |-> id,
                     seen |-> {}, c |-> id \in live];
@@ -186,7 +196,7 @@ Start:
       end with;
     or
       \* ---------------------------------------------------- InterruptGetNext
-      await self \in Interrupters;
+      await self \in Interrupters /\ (LockedInterrupt => holder = 0);
       waiting := {};
       cw := CwUpd;
       lastret := NoRet;
@@ -201,7 +211,7 @@ Start:
       end with;
     or
       \* ------------------------------------- GetNext(x): R1 = RLock..RUnlock
-      await self \in Readers;
+      await self \in Readers /\ holder = 0;
       with p \in 0..maxAdded, r = R1(db, cache, p) do
         cache := r.cache;
         if r.ret # NoNext then
@@ -223,7 +233,7 @@ Start:
   end while;
 
 W:  \* messagesMu.Lock() / return from Wait(): one iteration of the wait loop
-  await self \notin waiting;
+  await self \notin waiting /\ holder = 0;
   with w = WStep(db, cache, x[self], cur[self], cancelled[self]) do
     if w.k = "crash" then
       lastret := NoRet;
@@ -232,10 +242,10 @@ W:  \* messagesMu.Lock() / return from Wait(): one iteration of the wait loop
     elsif w.k = "park" then
       cache := w.cache;
       cur[self] := w.cur;
-      waiting := waiting \cup {self};       \* newMessage.Wait()
+      holder := self;                       \* entering newMessage.Wait(), lock still held
       lastret := NoRet;
-      Log("W", 0, "parked");
-      goto W;
+      Log("W", 0, "waitentry");
+      goto Wreg;
     else
       cache := w.cache;
       lastret := [t |-> self, k |-> IF w.k = "ret" THEN "next" ELSE "empty", id |-> w.id,
@@ -250,18 +260,25 @@ W:  \* messagesMu.Lock() / return from Wait(): one iteration of the wait loop
     end if;
   end with;
 
+Wreg:  \* inside newMessage.Wait(): register as waiter, release messagesMu, park
+  waiting := waiting \cup {self};
+  holder := 0;
+  lastret := NoRet;
+  Log("Wreg", 0, "parked");
+  goto W;
+
 Crash:  \* nil pointer dereference with messagesMu held: the process dies
   await FALSE;
 end process;
 end algorithm; *)
 \* BEGIN TRANSLATION
-VARIABLES pc, db, tail, cache, waiting, cancelled, x, cur, live, maxAdded, 
-          seen, cw, lastret, hist
+VARIABLES pc, db, tail, cache, waiting, holder, cancelled, x, cur, live, 
+          maxAdded, seen, cw, lastret, hist
 
 (* define statement *)
-InFlight(t) == pc[t] = "W"
+InFlight(t) == pc[t] \in {"W", "Wreg"}
 Parked(t)   == pc[t] = "W" /\ t \in waiting
-Runnable(t) == pc[t] = "W" /\ t \notin waiting
+Runnable(t) == (pc[t] = "W" /\ t \notin waiting) \/ pc[t] = "Wreg"
 AnyInFlight == \E t \in Threads : InFlight(t)
 
 AddChoices == {i \in (maxAdded + 1)..MaxId : Contig => i = maxAdded + 1}
@@ -272,11 +289,11 @@ SeenUpd(lv) == [t \in Threads |-> IF InFlight(t) THEN seen[t] \cup {MinSucc(lv, 
 CwUpd == [t \in Threads |-> cw[t] \/ (InFlight(t) /\ cancelled[t])]
 
 Pairs(f) == {<<i, f[i]>> : i \in DOMAIN f}
-Proj(d, tl, c, w) == [db |-> Pairs(d), tail |-> tl, cache |-> Pairs(c), waiting |-> w]
+Proj(d, tl, c, w, h) == [db |-> Pairs(d), tail |-> tl, cache |-> Pairs(c), waiting |-> w, holder |-> h]
 
 
-vars == << pc, db, tail, cache, waiting, cancelled, x, cur, live, maxAdded, 
-           seen, cw, lastret, hist >>
+vars == << pc, db, tail, cache, waiting, holder, cancelled, x, cur, live, 
+           maxAdded, seen, cw, lastret, hist >>
 
 ProcSet == (Threads)
 
@@ -285,6 +302,7 @@ Init == (* Global variables *)
         /\ tail = 0
         /\ cache = << >>
         /\ waiting = {}
+        /\ holder = 0
         /\ cancelled = [t \in Threads |-> FALSE]
         /\ x = [t \in Threads |-> 0]
         /\ cur = [t \in Threads |-> 0]
@@ -297,7 +315,7 @@ Init == (* Global variables *)
         /\ pc = [self \in ProcSet |-> "Start"]
 
 Start(self) == /\ pc[self] = "Start"
-               /\ \/ /\ self \in Adders
+               /\ \/ /\ self \in Adders /\ holder = 0
                      /\ \E id \in AddChoices:
                           /\ db' = (id :> NoNext) @@ (tail :> id) @@ db
                           /\ cache' = Drop(cache, tail)
@@ -311,10 +329,10 @@ Start(self) == /\ pc[self] = "Start"
                           /\ hist' = (IF KeepHist = 0 THEN hist
                                       ELSE IF KeepHist = 1 THEN Append(hist, [t |-> self, a |-> "Add", arg |-> id])
                                       ELSE Append(hist, [t |-> self, a |-> "Add", arg |-> id, pos |-> "idle", ret |-> lastret',
-                                                         post |-> Proj(db', tail', cache', waiting')]))
+                                                         post |-> Proj(db', tail', cache', waiting', holder)]))
                      /\ pc' = [pc EXCEPT ![self] = "Start"]
                      /\ UNCHANGED <<cancelled, x, cur>>
-                  \/ /\ self \in Deleters
+                  \/ /\ self \in Deleters /\ holder = 0
                      /\ \E id \in DelChoices:
                           /\ IF id = tail
                                 THEN /\ LET last == Max(DOMAIN db) IN
@@ -330,10 +348,10 @@ Start(self) == /\ pc[self] = "Start"
                           /\ hist' = (IF KeepHist = 0 THEN hist
                                       ELSE IF KeepHist = 1 THEN Append(hist, [t |-> self, a |-> "Delete", arg |-> id])
                                       ELSE Append(hist, [t |-> self, a |-> "Delete", arg |-> id, pos |-> "idle", ret |-> lastret',
-                                                         post |-> Proj(db', tail', cache', waiting)]))
+                                                         post |-> Proj(db', tail', cache', waiting, holder)]))
                      /\ pc' = [pc EXCEPT ![self] = "Start"]
                      /\ UNCHANGED <<waiting, cancelled, x, cur, maxAdded, cw>>
-                  \/ /\ self \in Getters
+                  \/ /\ self \in Getters /\ holder = 0
                      /\ \E id \in 0..MaxId:
                           /\ lastret' = [t |-> self, k |-> IF Has(db, cache, id) THEN "got" ELSE "miss", id |-> id,
                                          seen |-> {}, c |-> id \in live]
@@ -341,17 +359,17 @@ Start(self) == /\ pc[self] = "Start"
                           /\ hist' = (IF KeepHist = 0 THEN hist
                                       ELSE IF KeepHist = 1 THEN Append(hist, [t |-> self, a |-> "Get", arg |-> id])
                                       ELSE Append(hist, [t |-> self, a |-> "Get", arg |-> id, pos |-> "idle", ret |-> lastret',
-                                                         post |-> Proj(db, tail, cache', waiting)]))
+                                                         post |-> Proj(db, tail, cache', waiting, holder)]))
                      /\ pc' = [pc EXCEPT ![self] = "Start"]
                      /\ UNCHANGED <<db, tail, waiting, cancelled, x, cur, live, maxAdded, seen, cw>>
-                  \/ /\ self \in Interrupters
+                  \/ /\ self \in Interrupters /\ (LockedInterrupt => holder = 0)
                      /\ waiting' = {}
                      /\ cw' = CwUpd
                      /\ lastret' = NoRet
                      /\ hist' = (IF KeepHist = 0 THEN hist
                                  ELSE IF KeepHist = 1 THEN Append(hist, [t |-> self, a |-> "Interrupt", arg |-> 0])
                                  ELSE Append(hist, [t |-> self, a |-> "Interrupt", arg |-> 0, pos |-> "idle", ret |-> lastret',
-                                                    post |-> Proj(db, tail, cache, waiting')]))
+                                                    post |-> Proj(db, tail, cache, waiting', holder)]))
                      /\ pc' = [pc EXCEPT ![self] = "Start"]
                      /\ UNCHANGED <<db, tail, cache, cancelled, x, cur, live, maxAdded, seen>>
                   \/ /\ self \in Interrupters
@@ -361,10 +379,10 @@ Start(self) == /\ pc[self] = "Start"
                           /\ hist' = (IF KeepHist = 0 THEN hist
                                       ELSE IF KeepHist = 1 THEN Append(hist, [t |-> self, a |-> "Cancel", arg |-> r])
                                       ELSE Append(hist, [t |-> self, a |-> "Cancel", arg |-> r, pos |-> "idle", ret |-> lastret',
-                                                         post |-> Proj(db, tail, cache, waiting)]))
+                                                         post |-> Proj(db, tail, cache, waiting, holder)]))
                      /\ pc' = [pc EXCEPT ![self] = "Start"]
                      /\ UNCHANGED <<db, tail, cache, waiting, x, cur, live, maxAdded, seen, cw>>
-                  \/ /\ self \in Readers
+                  \/ /\ self \in Readers /\ holder = 0
                      /\ \E p \in 0..maxAdded:
                           LET r == R1(db, cache, p) IN
                             /\ cache' = r.cache
@@ -375,7 +393,7 @@ Start(self) == /\ pc[self] = "Start"
                                        /\ hist' = (IF KeepHist = 0 THEN hist
                                                    ELSE IF KeepHist = 1 THEN Append(hist, [t |-> self, a |-> "GetNext", arg |-> p])
                                                    ELSE Append(hist, [t |-> self, a |-> "GetNext", arg |-> p, pos |-> "idle", ret |-> lastret',
-                                                                      post |-> Proj(db, tail, cache', waiting)]))
+                                                                      post |-> Proj(db, tail, cache', waiting, holder)]))
                                        /\ pc' = [pc EXCEPT ![self] = "Start"]
                                        /\ UNCHANGED << x, cur, seen, cw >>
                                   ELSE /\ x' = [x EXCEPT ![self] = p]
@@ -386,33 +404,34 @@ Start(self) == /\ pc[self] = "Start"
                                        /\ hist' = (IF KeepHist = 0 THEN hist
                                                    ELSE IF KeepHist = 1 THEN Append(hist, [t |-> self, a |-> "GetNext", arg |-> p])
                                                    ELSE Append(hist, [t |-> self, a |-> "GetNext", arg |-> p, pos |-> "lock", ret |-> lastret',
-                                                                      post |-> Proj(db, tail, cache', waiting)]))
+                                                                      post |-> Proj(db, tail, cache', waiting, holder)]))
                                        /\ pc' = [pc EXCEPT ![self] = "W"]
                                        /\ UNCHANGED cancelled
                      /\ UNCHANGED <<db, tail, waiting, live, maxAdded>>
+               /\ UNCHANGED holder
 
 W(self) == /\ pc[self] = "W"
-           /\ self \notin waiting
+           /\ self \notin waiting /\ holder = 0
            /\ LET w == WStep(db, cache, x[self], cur[self], cancelled[self]) IN
                 IF w.k = "crash"
                    THEN /\ lastret' = NoRet
                         /\ hist' = (IF KeepHist = 0 THEN hist
                                     ELSE IF KeepHist = 1 THEN Append(hist, [t |-> self, a |-> "W", arg |-> 0])
                                     ELSE Append(hist, [t |-> self, a |-> "W", arg |-> 0, pos |-> "crash", ret |-> lastret',
-                                                       post |-> Proj(db, tail, cache, waiting)]))
+                                                       post |-> Proj(db, tail, cache, waiting, holder)]))
                         /\ pc' = [pc EXCEPT ![self] = "Crash"]
-                        /\ UNCHANGED << cache, waiting, cancelled, x, cur, 
-                                        seen, cw >>
+                        /\ UNCHANGED << cache, holder, cancelled, x, cur, seen, 
+                                        cw >>
                    ELSE /\ IF w.k = "park"
                               THEN /\ cache' = w.cache
                                    /\ cur' = [cur EXCEPT ![self] = w.cur]
-                                   /\ waiting' = (waiting \cup {self})
+                                   /\ holder' = self
                                    /\ lastret' = NoRet
                                    /\ hist' = (IF KeepHist = 0 THEN hist
                                                ELSE IF KeepHist = 1 THEN Append(hist, [t |-> self, a |-> "W", arg |-> 0])
-                                               ELSE Append(hist, [t |-> self, a |-> "W", arg |-> 0, pos |-> "parked", ret |-> lastret',
-                                                                  post |-> Proj(db, tail, cache', waiting')]))
-                                   /\ pc' = [pc EXCEPT ![self] = "W"]
+                                               ELSE Append(hist, [t |-> self, a |-> "W", arg |-> 0, pos |-> "waitentry", ret |-> lastret',
+                                                                  post |-> Proj(db, tail, cache', waiting, holder')]))
+                                   /\ pc' = [pc EXCEPT ![self] = "Wreg"]
                                    /\ UNCHANGED << cancelled, x, seen, cw >>
                               ELSE /\ cache' = w.cache
                                    /\ lastret' = [t |-> self, k |-> IF w.k = "ret" THEN "next" ELSE "empty", id |-> w.id,
@@ -425,18 +444,30 @@ W(self) == /\ pc[self] = "W"
                                    /\ hist' = (IF KeepHist = 0 THEN hist
                                                ELSE IF KeepHist = 1 THEN Append(hist, [t |-> self, a |-> "W", arg |-> 0])
                                                ELSE Append(hist, [t |-> self, a |-> "W", arg |-> 0, pos |-> "idle", ret |-> lastret',
-                                                                  post |-> Proj(db, tail, cache', waiting)]))
+                                                                  post |-> Proj(db, tail, cache', waiting, holder)]))
                                    /\ pc' = [pc EXCEPT ![self] = "Start"]
-                                   /\ UNCHANGED waiting
-           /\ UNCHANGED << db, tail, live, maxAdded >>
+                                   /\ UNCHANGED holder
+           /\ UNCHANGED << db, tail, waiting, live, maxAdded >>
+
+Wreg(self) == /\ pc[self] = "Wreg"
+              /\ waiting' = (waiting \cup {self})
+              /\ holder' = 0
+              /\ lastret' = NoRet
+              /\ hist' = (IF KeepHist = 0 THEN hist
+                          ELSE IF KeepHist = 1 THEN Append(hist, [t |-> self, a |-> "Wreg", arg |-> 0])
+                          ELSE Append(hist, [t |-> self, a |-> "Wreg", arg |-> 0, pos |-> "parked", ret |-> lastret',
+                                             post |-> Proj(db, tail, cache, waiting', holder')]))
+              /\ pc' = [pc EXCEPT ![self] = "W"]
+              /\ UNCHANGED << db, tail, cache, cancelled, x, cur, live, 
+                              maxAdded, seen, cw >>
 
 Crash(self) == /\ pc[self] = "Crash"
                /\ FALSE
                /\ pc' = [pc EXCEPT ![self] = "Done"]
-               /\ UNCHANGED << db, tail, cache, waiting, cancelled, x, cur, 
-                               live, maxAdded, seen, cw, lastret, hist >>
+               /\ UNCHANGED << db, tail, cache, waiting, holder, cancelled, x, 
+                               cur, live, maxAdded, seen, cw, lastret, hist >>
 
-Thread(self) == Start(self) \/ W(self) \/ Crash(self)
+Thread(self) == Start(self) \/ W(self) \/ Wreg(self) \/ Crash(self)
 
 (* Allow infinite stuttering to prevent deadlock on termination. *)
 Terminating == /\ \A self \in ProcSet: pc[self] = "Done"
@@ -459,6 +490,7 @@ TypeOK ==
   /\ tail \in 0..MaxId
   /\ DOMAIN cache \subseteq 0..MaxId
   /\ waiting \subseteq Threads
+  /\ holder \in Threads \cup {0}
   /\ live \subseteq 1..MaxId
 
 DbInv ==
@@ -470,7 +502,8 @@ DbInv ==
      \* a cached entry is current, or it is the tail's stale pointer to a deleted ex-tail
   /\ \A i \in DOMAIN cache : cache[i] = db[i] \/ (i = tail /\ cache[i] \notin DOMAIN db)
   /\ \A t \in waiting : pc[t] = "W"
-  /\ \A t \in Threads : pc[t] = "W" => t \in Readers
+  /\ \A t \in Threads : pc[t] \in {"W", "Wreg"} => t \in Readers
+  /\ \A t \in Threads : pc[t] = "Wreg" <=> holder = t
 
 (* Property predicates (also evaluated on the real code by OutStreamTrace). *)
 NoCrash == \A t \in Threads : pc[t] # "Crash"
@@ -502,14 +535,15 @@ ParkedNotCw  == \A t \in waiting : ~cw[t]
 (* to be fair).  Live: a reader cannot stay in flight for ever while from    *)
 (* some point on a successor of its position always exists.  CancelReturns:  *)
 (* cancelled and woken (Broadcast after the cancel) leads to a return.       *)
-FairSpec == Spec /\ \A t \in Readers : WF_vars(W(t))
+\* (strong fairness for W: it is disabled while another reader sits between W and Wreg)
+FairSpec == Spec /\ \A t \in Readers : SF_vars(W(t)) /\ WF_vars(Wreg(t))
 Live == \A t \in Readers :
           []<>(~InFlight(t) \/ MinSucc(live, x[t]) = NoNext)
 CancelReturns == \A t \in Readers :
           (InFlight(t) /\ cancelled[t] /\ cw[t]) ~> ~InFlight(t)
 
 (* Views / helpers for behaviour extraction.                                 *)
-NoHistView == <<db, tail, cache, waiting, cancelled, x, cur, live, maxAdded, seen, cw, lastret, pc>>
+NoHistView == <<db, tail, cache, waiting, holder, cancelled, x, cur, live, maxAdded, seen, cw, lastret, pc>>
 
 \* simulation (KeepHist = 2): print the behaviour when it reaches the depth bound
 BehaviourOut ==
@@ -521,12 +555,14 @@ BehaviourOut ==
 \* one behaviour per transition is printed.  Always TRUE.
 EdgeOut == PrintT(<<"EDGE", ToJson(hist')>>)
 
-\* pinned-tree model (Fixed = FALSE, KeepHist = 1, VIEW NoHistView): print one
-\* shortest behaviour per state in which the step just taken crashed a reader or
-\* parked it although a successor exists.  Always TRUE: exploration continues.
+\* defect models (Fixed = FALSE and/or LockedInterrupt = FALSE; KeepHist = 1, VIEW
+\* NoHistView): print one shortest behaviour per state in which the step just taken
+\* crashed a reader or parked it although a successor exists or although it is
+\* cancelled and was woken since.  Always TRUE: exploration continues.
 CandidateOut ==
   LET h == hist[Len(hist)] IN
-  (Len(hist) = 0 \/ h.a # "W"
-     \/ ~(pc[h.t] = "Crash" \/ (h.t \in waiting /\ MinSucc(live, x[h.t]) # NoNext)))
+  (Len(hist) = 0 \/ h.a \notin {"W", "Wreg"}
+     \/ ~(pc[h.t] = "Crash"
+           \/ (h.t \in waiting /\ (MinSucc(live, x[h.t]) # NoNext \/ cw[h.t]))))
   \/ PrintT(<<"CANDIDATE", ToJson(hist)>>)
 =============================================================================
